@@ -5,6 +5,7 @@ mod compare;
 mod ctor;
 mod ev;
 mod extract;
+mod overflow;
 mod payload;
 mod sized;
 mod thin;
@@ -162,6 +163,12 @@ fn main() {
                 usage();
             }
             threads::run_many(args[1].parse().unwrap_or(1), args[2].parse().unwrap_or(2), args[3].parse().unwrap_or(20), &args[4]);
+        }
+        "overflow" => {
+            if args.len() < 3 {
+                usage();
+            }
+            overflow::run(&args[1], &args[2]);
         }
         "ctor" => {
             if args.len() < 3 {
